@@ -16,7 +16,9 @@ ASSUMPTIONS = ["no NaN energies (finite-or-infinite energies only)", "in-process
 def make_generate(**kw):
     def generate(rng, n, tier):
         for _ in range(n):
-            yield G.gen_script(rng, **kw)
+            # Powell is outside the machine model: one script in six runs it for the oracle
+            solvers = ("POW",) if rng.random() < 0.17 else L.SOLVERS
+            yield G.gen_script(rng, solvers=solvers, **kw)
     return generate
 
 
@@ -64,7 +66,8 @@ def energy_of_call(case, c):
 
 
 def site_of(case):
-    return {"DE": "DifferentialEvolutionSolver", "DE2": "DifferentialEvolutionSolver2", "NM": "NelderMeadSimplexSolver"}[case["solver"]]
+    return {"DE": "DifferentialEvolutionSolver", "DE2": "DifferentialEvolutionSolver2", "NM": "NelderMeadSimplexSolver",
+            "POW": "PowellDirectionalSolver"}[case["solver"]]
 
 
 def taint_index(case, out):
@@ -251,14 +254,31 @@ def oracle_c04(case, out):
             exp = out["calls"][emon_from:s["ncalls"]]
             if [c["x"] for c in exp] != s["emx"] or [c["y"] for c in exp] != s["emy"]:
                 f.append(fail("evalmon_is_calls", site_of(case), "evaluation-monitor-differs-from-calls", dict(op=k, n_mon=len(s["emx"]), n_calls=len(exp))))
-        if s["gens"] != max(0, s["nsm"] - 1):
-            f.append(fail("generations_is_steps", site_of(case), "generations-not-stepmon", dict(op=k)))
+        powell = case["solver"] == "POW"
+        pow_m0 = powell and any(t["maxiter"] == 0 and t["nsm"] == 0 and t["nstep"] > 0 for t in out["trace"][:k + 1])
+        # Powell logs a generation one phase late: its step monitor is complete only once the run is stopped (Finalize)
+        settled = (not powell) or s.get("synced", True)
+        if settled and s["gens"] != max(0, s["nsm"] - 1):
+            pat = "generations-not-stepmon"
+            if powell and s["nsm"] == s["gens"] + 2 and len(s["shist"]) >= 2 and s["shist"][-1] == s["shist"][-2]:
+                pat = "powell-finalize-duplicate-record"
+            if pow_m0:
+                pat = "powell-maxiter-0-initial-evaluation-not-logged"
+            f.append(fail("generations_is_steps", site_of(case), pat, dict(op=k, gens=s["gens"], records=s["nsm"])))
         if not any(x["op"] == "SetStepMonitor" for x in case["ops"][:k + 1]):
             if s["gens"] != max(0, s["nstep"] - 1):
-                f.append(fail("generations_is_steps", site_of(case), "generations-not-completed-iterations", dict(op=k, gens=s["gens"], steps=s["nstep"])))
-            if s["nsm"] != s["nstep"]:
-                f.append(fail("stepmon_one_per_step", site_of(case), "stepmon-records-not-one-per-step", dict(op=k, records=s["nsm"], steps=s["nstep"])))
-        if s["shist"] and o in ("Step", "Solve") and (s["shist"][-1] != s["bestX"]):
+                pat = "generations-not-completed-iterations"
+                if pow_m0:
+                    pat = "powell-maxiter-0-initial-evaluation-not-logged"
+                f.append(fail("generations_is_steps", site_of(case), pat, dict(op=k, gens=s["gens"], steps=s["nstep"])))
+            if settled and s["nsm"] != s["nstep"]:
+                pat = "stepmon-records-not-one-per-step"
+                if powell and s["nsm"] == s["nstep"] + 1 and len(s["shist"]) >= 2 and s["shist"][-1] == s["shist"][-2]:
+                    pat = "powell-finalize-duplicate-record"
+                if pow_m0:
+                    pat = "powell-maxiter-0-initial-evaluation-not-logged"
+                f.append(fail("stepmon_one_per_step", site_of(case), pat, dict(op=k, records=s["nsm"], steps=s["nstep"])))
+        if settled and s["shist"] and o in ("Step", "Solve") and (s["shist"][-1] != s["bestX"]):
             f.append(fail("stepmon_ends_in_result", site_of(case), "last-record-not-best" + sfx, dict(op=k)))
     # callbacks: exactly one per executed _Step that was given the callback, with the best at that time
     return f + _callback_check(case, out)
